@@ -86,7 +86,7 @@ func (w *histWorldT) grow() error {
 	rh := refHeight{flat: flat(bc), root: sr.Root, bhash: b.Hash(), calls: w.calls()}
 	w.hs = append(w.hs, rh)
 	live := w.o.invokeLive(w.ref, w.ref.srvs[w.o.r.Intn(len(w.ref.srvs))], rh.calls)
-	w.o.tr.Emit(map[string]any{"event": "ref", "h": h, "flat": rh.flat, "live": live, "root": sr.Root.StringLE(), "bhash": b.Hash().StringLE(),
+	w.o.tr.Emit(map[string]any{"event": "ref", "w": w.o.wi, "h": h, "flat": rh.flat, "live": live, "root": sr.Root.StringLE(), "bhash": b.Hash().StringLE(),
 		"ntx": len(b.Transactions)})
 	return nil
 }
@@ -141,7 +141,7 @@ func histWorld(t *testing.T, res *vh.Result, tr *vh.Trace, wi int, nblocks int) 
 	for k, v := range map[string]int{"deploy": 5, "kvput": 12, "kvmany": 6, "kvdel": 5, "destroy": 2} {
 		w.gen.Weights[k] = v
 	}
-	tr.Emit(map[string]any{"event": "init", "world": w.o.w, "srih": srih, "small_mtb": smallMTB})
+	w.o.wi = openWorld(tr, w.o.w, map[string]any{"srih": srih, "small_mtb": smallMTB})
 	for h := uint32(1); h <= uint32(nblocks); h++ {
 		if err := w.grow(); err != nil {
 			t.Fatalf("generator: %v", err)
@@ -156,7 +156,8 @@ func histWorld(t *testing.T, res *vh.Result, tr *vh.Trace, wi int, nblocks int) 
 					t.Fatalf("node %s refused block %d of the reference node: %v", n.name, h, err)
 				}
 			}
-			if (int(h)+i)%3 == 0 {
+			// the window node flushes (and lets the MPT collector run) after every block: what is outside its window is really gone
+			if n.keep == "window" || (int(h)+i)%3 == 0 {
 				if err := n.bc.VerifPersist(); err != nil {
 					t.Fatal(err)
 				}
@@ -188,8 +189,11 @@ func (w *histWorldT) observe(n *node, at uint32) {
 	for k := 0; k < 2; k++ {
 		hs = append(hs, 1+uint32(r.Intn(int(at-1))))
 	}
-	if n.keep == "window" && at > n.window+2 && r.Intn(2) == 0 {
-		hs = append(hs, at-n.window-1-uint32(r.Intn(2))) // right outside the window
+	if n.keep == "window" && at > n.window+2 {
+		hs = append(hs, at-n.window-1) // right outside the window
+		if r.Intn(2) == 0 {
+			hs = append(hs, at-n.window-2)
+		}
 	}
 	for hi, h := range hs {
 		rh := w.hs[h-1]
@@ -206,6 +210,9 @@ func (w *histWorldT) observe(n *node, at uint32) {
 			continue
 		}
 		for k := 0; k < 4; k++ {
+			if k == 1 && hi > 0 {
+				continue
+			}
 			it := rh.flat[r.Intn(len(rh.flat))]
 			if k == 3 { // one of the longest keys
 				for tries := 0; tries < 6; tries++ {
@@ -304,7 +311,7 @@ func (w *histWorldT) observe(n *node, at uint32) {
 					nitems++
 				}
 			}
-			if (k == 0 || k == 2) && n.retained(h) && nitems <= 40 {
+			if k == 2 && n.retained(h) && nitems <= 30 {
 				// whole-contract walks in both protocols
 				o.walkFrom(n, n.srvs[1], h, root, hash, it.ID, nil, 1+r.Intn(3), 400, nil)
 				o.walkIndex(n, n.srvs[1], h, true, root, hash, it.ID, w.nameOf[it.ID], nil, 400, nil)
@@ -331,7 +338,7 @@ func (w *histWorldT) observe(n *node, at uint32) {
 				hows = hows[r.Intn(3):][:1]
 			}
 			for _, how := range hows {
-				o.invokeHistoric(n, s, h, how, rh.bhash, rh.root, rh.calls)
+				o.invokeHistoric(n, s, h, how, rh.bhash, rh.root, rh.calls, 8)
 			}
 		}
 	}
